@@ -411,7 +411,35 @@ func c09(c *Ctx) {
 		cl.Destroy()
 		c.Count("exchange:krb-error")
 	}
+	// ... also when it arrives over TCP after the UDP attempt was answered "response too big" (default UDP preference)
+	k.UDPTooBig = true
+	for _, code := range codes {
+		if code == 68 {
+			continue
+		}
+		k.ErrorCode = code
+		cfg := testConfig(realm, []string{k.Addr}, []int32{18})
+		cfg.LibDefaults.UDPPreferenceLimit = 1465
+		cl := client.NewWithPassword("testuser1", realm, "passwordvalue", cfg, client.DisablePAFXFAST(true))
+		err := cl.Login()
+		okc := err != nil && strings.Contains(err.Error(), errorcode.Lookup(code))
+		c.Check(okc, "a KRB-ERROR reply reaches the caller as an error carrying the KDC's error code", fmt.Sprintf("krberror-lost-after-udp-too-big:%d", code), fmt.Sprint(err), nil)
+		cl.Destroy()
+		c.Count("exchange:krb-error-after-too-big")
+	}
 	k.ErrorCode = 0
+	{
+		// and a correct exchange completes over TCP after "response too big" on UDP, pre-authentication included
+		k.RequirePreauth = true
+		cfg := testConfig(realm, []string{k.Addr}, []int32{18})
+		cfg.LibDefaults.UDPPreferenceLimit = 1465
+		cl := client.NewWithPassword("testuser1", realm, "passwordvalue", cfg, client.DisablePAFXFAST(true))
+		err := cl.Login()
+		c.Check(err == nil, "login succeeds over TCP after response-too-big on UDP", "login-fails-after-udp-too-big", fmt.Sprint(err), nil)
+		cl.Destroy()
+		k.RequirePreauth = false
+	}
+	k.UDPTooBig = false
 
 	// ---- a referral: the reply of the second hop answers the request only if it is sealed under the session key
 	// issued with the referral TGT (not under the key of the TGT presented at the first hop) ----
